@@ -38,7 +38,14 @@ AsyncEq(la, ea) == /\ Len(la) = Cardinality(ea)
 RoutesOK(ev) ==
     Has(ev, "routes") =>
         \A b \in Brokers : ToSet(ev.routes[b]) = { <<Home[e[2]], e[1]>> : e \in { x \in trie' : Home[x[2]] # b } }
+(* C07 "stored once, under the publisher's channel, with the requested ttl": when the event carries `stored' (what a
+   history query over every first level returns on each broker: [channel, payload, ttl]) it is exactly the model's store *)
+StoredOK(ev) ==
+    Has(ev, "stored") =>
+        \A b \in Brokers : /\ ToSet(ev.stored[b]) = { <<store'[b][i].w, store'[b][i].p, store'[b][i].ttl>> : i \in DOMAIN store'[b] }
+                           /\ Len(ev.stored[b]) = Len(store'[b])
 OutOK(ev) ==
+    /\ StoredOK(ev)
     /\ \A c \in Clients : /\ SyncEq(ev.out[c].s, out'[c].s)
                            /\ (out'[c].s = <<[t |-> "any"]>> \/ AsyncEq(ev.out[c].a, out'[c].a))    \* (a hostile requester's own inbox is free)
     /\ ev.tcount = Cardinality(trie')
@@ -78,6 +85,7 @@ TrUnsub   == IsEvent("unsub")    /\ Unsubscribe(Ev.c, Ev.k, Ev.w, Ev.syn) /\ Fin
 TrPub     == IsEvent("pub")      /\ Publish(Ev.c, ReqOf(Ev), Ev.via, Ev.retain, Ev.qos, Ev.p) /\ Fin(Ev) /\ PendNext(Ev)
 TrLink    == IsEvent("link")     /\ Link(Ev.c, Ev.name, Ev.name # "toolong", ReqOf(Ev), Ev.sub, 1) /\ Fin(Ev) /\ PendNext(Ev)
 TrPres    == IsEvent("presence") /\ Presence(Ev.c, Ev.k, Ev.w, Ev.syn, Ev.status, Ev.chg, 1) /\ Fin(Ev) /\ PendNext(Ev)
+TrRestart == IsEvent("restart")  /\ Restart /\ OutOK(Ev) /\ PendNext(Ev)
 TrEnd     == IsEvent("end")      /\ End(Ev.c) /\ Fin(Ev) /\ PendNext(Ev)
 (* C09: the broker is still there (the event exists), the hostile connection is closed or answered, everybody else is
    served exactly as the model says - in this step and in all later ones *)
@@ -89,7 +97,7 @@ TrConcDone == IsEvent("concdone") /\ UNCHANGED allvars /\ pend' = NoPend
 
 TraceInit == SessionInit /\ l = 1 /\ pend = NoPend /\ MarkInit
 (* a "broker-died" event (the process exited, hung or ran out of its memory ceiling) has no action: never explained *)
-TraceNext == TrReset \/ TrConnect \/ TrSub \/ TrUnsub \/ TrPub \/ TrLink \/ TrPres \/ TrEnd \/ TrHostile \/ TrCluster \/ TrConcDone
+TraceNext == TrReset \/ TrConnect \/ TrSub \/ TrUnsub \/ TrPub \/ TrLink \/ TrPres \/ TrEnd \/ TrHostile \/ TrCluster \/ TrConcDone \/ TrRestart
 MarkC     == Mark(l)
 TraceInv  == TrieIsHeld /\ NothingLeftBehind
 =============================================================================
